@@ -78,3 +78,39 @@ Theorem C13_refines_map_of_maps_all_ops : forall ops, Forall op_bytes ops ->
   map abs_out (snd (exec_all sys_init ops)) = snd (spec_exec_all spec_init ops).
 Proof. exact sys_refines_spec_all. Qed.
 Print Assumptions C13_refines_map_of_maps_all_ops.
+
+(** ** Concurrent creates / deletes of ONE name: exactly one reports success (BorderUniqueProofs).
+    create_storage is a unique insert, delete_storage a remove, of the name in the directory tree; on one border node,
+    for every interleaving, any number of threads and operations per thread: *)
+From Yk Require Import BorderDefs BorderProofs BorderUniqueProofs.
+
+(** among concurrent unique inserts of a key nobody removes, once they have all completed exactly one returned OK
+    (the others WARN_UNIQUE_RESTRICTION) and the key is bound *)
+Theorem C13_concurrent_creates_exactly_one : forall s0 tr s k,
+  Inv s0 -> bm s0 k = None -> quiet k s0 ->
+  brun true s0 tr = Some s -> only_uput_get k tr -> quiet k s ->
+  (exists t v r, In (t, OpUput k v, r) (bhist s0 tr)) ->
+  uput_ok_returns k s0 tr = 1%nat /\ bm s k <> None /\
+  forall t v r, In (t, OpUput k v, r) (bhist s0 tr) -> r = ROk \/ r = RUnique.
+Proof. exact uput_quiescent_exactly_one. Qed.
+Print Assumptions C13_concurrent_creates_exactly_one.
+
+(** ... and at no instant do two of them stand at a successful return *)
+Theorem C13_creates_at_most_one_ok : forall tr s k,
+  brun true binit tr = Some s ->
+  (forall t o, In (BInvoke t o) tr -> op_key o = k -> exists v, o = OpUput k v \/ o = OpGet k) ->
+  forall t1 t2 v1 v2,
+    t_op (b_thr s t1) = Some (OpUput k v1) -> t_pc (b_thr s t1) = PDone ROk ->
+    t_op (b_thr s t2) = Some (OpUput k v2) -> t_pc (b_thr s t2) = PDone ROk -> t1 = t2.
+Proof. exact uput_at_most_one_ok. Qed.
+Print Assumptions C13_creates_at_most_one_ok.
+
+(** symmetric for deletes of a bound name *)
+Theorem C13_concurrent_deletes_exactly_one : forall s0 tr s k,
+  Inv s0 -> bm s0 k <> None -> quiet k s0 ->
+  brun true s0 tr = Some s -> only_rem_get k tr -> quiet k s ->
+  (exists t r, In (t, OpRem k, r) (bhist s0 tr)) ->
+  rem_ok_returns k s0 tr = 1%nat /\ bm s k = None /\
+  forall t r, In (t, OpRem k, r) (bhist s0 tr) -> r = ROk \/ r = RNotFound.
+Proof. exact rem_quiescent_exactly_one. Qed.
+Print Assumptions C13_concurrent_deletes_exactly_one.
